@@ -14,6 +14,7 @@
    Values: a fill value is an integer token (Lib/PyFill.v); `VInt t`. *)
 From Coq Require Import ZArith List Bool String.
 From Verif Require Import Py PyExt PyFill S_fill.
+From Verif Require Shape COO.
 Import ListNotations.
 Open Scope Z_scope.
 Open Scope string_scope.
@@ -102,6 +103,7 @@ Inductive policy :=
 | Consistent (arrays : string)             (* join: all operands must have the same fill *)
 | Preserves (computed_ok : list string)    (* result positions are operand positions: must pass the operand's fill;
                                               computed_ok: reviewed computed fill expressions (see comments) *)
+| PreservesOrZeroOnly (operands : list string)   (* either of the two: pass the fill, or refuse non-zero fills *)
 | Computes                                 (* element-wise / reduction / creation: the fill is computed *)
 | NoArrayResult                            (* no sparse result (scalars, dense output, temporaries) *)
 | CallerGuarded.                           (* private kernel of zero-only operations: every caller is zero-only *)
@@ -130,7 +132,10 @@ Definition required : list (string * policy) := [
   ("common.pad", Preserves []);       (* pad refuses constant_values <> fill (ValueError) and passes the fill *)
   ("common.asarray", Preserves []);
   ("coo_core.as_coo", Preserves ["fill_value"]);   (* fill_value is accepted only for operands without a fill (guarded by ValueError) *)
-  ("coo_common.asCOO", Preserves []); ("coo_common.diagonal", Preserves []); ("coo_common.diagonalize", Preserves []);
+  ("coo_common.asCOO", Preserves []); ("coo_common.diagonal", Preserves []);
+  (* diagonalize puts the array on the diagonal of a larger one: the property allows either to carry the fill along or
+     to refuse non-zero fills; since fix 7b39a89 the code refuses (check_zero_fill_value) *)
+  ("coo_common.diagonalize", PreservesOrZeroOnly ["a"]);
   ("coo_common.expand_dims", Preserves []); ("coo_common.flip", Preserves []); ("coo_common.matrix_transpose", Preserves []);
   ("coo_common.roll", Preserves []); ("coo_common.sort", Preserves []); ("coo_common.take", Preserves []);
   ("coo_common._validate_coo_input", Preserves []);
@@ -259,6 +264,7 @@ Definition site_ok (table : list site) (pol : policy) (s : site) : bool :=
   | ZeroOnlyWhen c ops => site_ok_zero GZero (Some c) ops s
   | Consistent a => site_ok_consistent a s
   | Preserves ok => site_ok_preserves ok s
+  | PreservesOrZeroOnly ops => site_ok_preserves [] s || site_ok_zero GZero None ops s
   | Computes | NoArrayResult => true
   | CallerGuarded => callers_zero_only table s && forallb zero_ctor_ok (s_ctors s)
   end.
@@ -275,13 +281,6 @@ Fixpoint find_site (table : list site) (op : string) : option site :=
   | [] => None
   | s :: r => if String.eqb (s_op s) op then Some s else find_site r op
   end.
-
-(* rows of the unchanged source that do NOT meet their policy (findings D5, D14): the constructor call
-   passes no fill_value and no guard is called.  Removing a name here after a repair of /repo is the only
-   edit needed; see Props/C07.v. *)
-Definition exceptions : list string := ["coo_common.diagonal"; "coo_common.diagonalize"].
-
-Definition sites_minus_exceptions : list site := filter (fun s => negb (mem (s_op s) exceptions)) sites.
 
 (* ------------------------------------------------------------------ (4) coercion / mix / scalar rules *)
 (* SparseArray.__array__ under a given setting of AUTO_DENSIFY *)
@@ -308,10 +307,14 @@ Definition maybe_densify_gcxs (size max_size : Z) (density_low : bool) : res pyv
   s_maybe_densify_gcxs (VInt size) (VInt max_size) (VBool density_low).
 
 (* ------------------------------------------------------------------ (5) the fill correction of an additive reduction
-   SparseArray.reduce with method = np.add (reduce_super_ufunc = np.multiply): for a group with `c` stored
-   values out of `n`, the code computes  sum(stored) + fill * (n - c);  NumPy's meaning is the sum of the stored
-   values and (n - c) copies of the fill.  Extended integers (the IEEE special values as far as + and * by a
-   count are concerned). *)
+   SparseArray.reduce with method = np.add (reduce_super_ufunc = np.multiply).  For a group with `c` stored values
+   out of `n` the code computes (since fix f1f8980: only where counts != n_cols)
+       data[missing] = data[missing] + fill * (n_cols - counts)[missing]
+   and the result's fill (the value of a group without stored values) is  fill * n_cols,  or the ufunc identity when
+   n_cols == 0 (fix d2cf53a).  NumPy's meaning is the sum of the stored values and (n - c) copies of the fill.
+   Values: extended integers (the IEEE special values as far as + and * by a count are concerned; inf * 0 = nan).
+   Tie to the source: tools/frags/fill.py (s_reduce_admissible: `requires_nested`) checks that the statements
+   transcribed here are still present in SparseArray.reduce; the `*_full` recipes of the campaign exercise them. *)
 Inductive xz := Fin (z : Z) | PInf | NInf | XNaN.
 
 Definition xadd (a b : xz) : xz :=
@@ -334,13 +337,34 @@ Definition xmul_count (f : xz) (k : Z) : xz :=
 
 Definition xsum (l : list xz) : xz := fold_left xadd l (Fin 0).
 
-(* what the code computes for one group / what NumPy means *)
+(* what the code computes for one group with stored values / what NumPy means *)
 Definition sum_group_impl (stored : list xz) (fill : xz) (n : nat) : xz :=
-  xadd (xsum stored) (xmul_count fill (Z.of_nat n - Z.of_nat (List.length stored))).
+  if (List.length stored =? n)%nat then xsum stored                       (* counts == n_cols: no correction *)
+  else xadd (xsum stored) (xmul_count fill (Z.of_nat n - Z.of_nat (List.length stored))).
 Definition sum_group_spec (stored : list xz) (fill : xz) (n : nat) : xz :=
   xsum (stored ++ repeat fill (n - List.length stored)).
 
-Definition xfinite (f : xz) : bool := match f with Fin _ => true | _ => false end.
-(* domain clause of finding D23: the fill is finite, or the group is not complete *)
-Definition d23_clause (stored : list xz) (fill : xz) (n : nat) : bool :=
-  xfinite fill || (List.length stored <? n)%nat.
+(* the fill of the result = the value of a group that stores nothing *)
+Definition sum_result_fill (fill : xz) (n : nat) : xz :=
+  if (n =? 0)%nat then Fin 0                                              (* n_cols == 0: np.add's identity *)
+  else xmul_count fill (Z.of_nat n).
+
+(* ------------------------------------------------------------------ (6) why `Preserves` demands the operand's fill
+   A position-moving operation (indexing, transpose, reshape, flip, roll, diagonal, conversion ...): position i of the
+   result shows position `src i` of the operand.  The two structural facts below are the subject of C02/C05/C08/C09; given
+   them, the result is right at every unstored position exactly when the constructed fill is the operand's fill. *)
+Section Gather.
+  Variable V : Type.
+  Definition stored_right (x r : COO.coo V) (src : Shape.idx -> Shape.idx) : Prop :=
+    forall i v, COO.lookup (COO.entries r) i = Some v -> COO.den x (src i) = v.
+  Definition unstored_from_unstored (x r : COO.coo V) (src : Shape.idx -> Shape.idx) : Prop :=
+    forall i, COO.lookup (COO.entries r) i = None -> COO.lookup (COO.entries x) (src i) = None.
+End Gather.
+Arguments stored_right {V}.
+Arguments unstored_from_unstored {V}.
+
+(* illustration (the `diagonal` call site as it stood before fix 7b39a89, finding D5), on a 2 x 2 operand with one
+   stored element and fill 3:  COO(diag_coords, diag_data, diag_shape) — the fill defaults to 0 *)
+Definition diag_operand_example : COO.coo Z := COO.mkCOO [2; 2] [[0; 0]] [4] 3.
+Definition diag_result_example : COO.coo Z := COO.mkCOO [2] [[0]] [4] 0.
+Definition diag_src (i : Shape.idx) : Shape.idx := match i with [k] => [k; k] | _ => [] end.
